@@ -125,6 +125,7 @@ def run_tlc(
     meta = scratch.sub("meta-" + hashlib.sha1(f"{module}{cfg}{time.time()}".encode()).hexdigest()[:8])
     cmd = [
         "java", "-XX:+UseParallelGC", f"-Xmx{heap}", "-Xss64m",
+        f"-Djava.io.tmpdir={meta}",          # TLC's own temporary directories go away with the scratch directory
         "-cp", JAR, "tlc2.TLC",
         "-metadir", str(meta), "-noGenerateSpecTE",
         "-workers", str(workers or NCPU),
